@@ -728,9 +728,62 @@ def _run_sqlite(case):
       obs.update(status='des-error', err=_err(ex))
       return obs
     obs.update(status='ok', ids=ids, sizes=sizes, num=num, clients=clients, single=single)
+    try:
+      with contextlib.redirect_stdout(sink):
+        obs['interleaved'] = _interleaved_reads(sfd, path, dict(clients), len(case['clients']))
+    except Exception as ex:  # pylint: disable=broad-except
+      obs['interleaved'] = {'error': _err(ex)}
     return obs
   finally:
     shutil.rmtree(d, ignore_errors=True)
+
+
+def _interleaved_reads(sfd, path, full, salt):
+  """Lazy listings of ONE SQLiteFederatedData object interleaved with other queries on the same
+  object / on a slice of it.  Every entry is [client id, size or None, 'same' | observed examples]
+  ('same' = identical to what the fully consumed clients() listing gave for that id)."""
+  import sqlite3
+
+  def open_(k):
+    if (k + salt) % 2:
+      return sfd.SQLiteFederatedData(sqlite3.connect(path), sfd.decompress_and_deserialize)
+    return sfd.SQLiteFederatedData.new(path)
+
+  def ex(cid, ds):
+    o = _observe(dict(ds.all_examples()))
+    return 'same' if full.get(cid.hex()) == o else o
+
+  out = {}
+  fd = open_(0)
+  out['ids_then_size_and_get'] = [[c.hex(), int(fd.client_size(c)), ex(c, fd.get_client(c))] for c in fd.client_ids()]
+  fd = open_(1)
+  r = []
+  for c, n in fd.client_sizes():
+    got = list(fd.get_clients([c]))
+    fd.num_clients()
+    r.append([c.hex(), int(n), ex(c, got[0][1]) if len(got) == 1 and got[0][0] == c else {'t': 'foreign', 'type': 'get_clients'}])
+  out['sizes_then_get_clients'] = r
+  fd = open_(2)
+  r = []
+  for c, ds in fd.clients():
+    n = int(fd.client_size(c))
+    in_slice = list(fd.slice(start=c).client_ids())      # every id >= c, in insertion order
+    r.append([c.hex(), n if (c in in_slice and all(i >= c for i in in_slice)) else None, ex(c, ds)])
+  out['clients_then_size_and_slice'] = r
+  fd = open_(3)
+  out['zip_ids_clients'] = [[c.hex(), None, ex(c2, ds) if c2 == c else {'t': 'foreign', 'type': 'misaligned ' + c2.hex()}]
+                            for c, (c2, ds) in zip(fd.client_ids(), fd.clients())]
+  fd = open_(4)
+  out['zip_sizes_ids'] = [[c.hex(), int(n) if c2 == c else None, 'same'] for (c, n), c2 in zip(fd.client_sizes(), fd.client_ids())]
+  fd = open_(5)
+  sl = fd.slice(start=b'')          # a view over every client, sharing the connection
+  r = []
+  for c in sl.client_ids():
+    n = int(fd.client_size(c))
+    r.append([c.hex(), n, ex(c, sl.get_client(c))])
+    list(itertools.islice(fd.client_ids(), 1))
+  out['slice_ids_then_parent_queries'] = r
+  return out
 
 
 def _run_ckpt(case):
@@ -943,6 +996,19 @@ def oracle(case, obs):
   want_sizes = [[cid, feats[0][1]['shape'][0]] for cid, feats in clients]
   if obs['sizes'] != want_sizes or [[c, n] for c, n, _ in obs['single']] != want_sizes:
     out.append(('sqlite-sizes', 'client sizes differ from the number of examples written'))
+  inter = obs.get('interleaved', {})
+  if 'error' in inter:
+    out.append(('sqlite-interleaved', f'an interleaved read-back raised {inter["error"]}'))
+  else:
+    want_rows = [[cid, feats[0][1]['shape'][0]] for cid, feats in clients]
+    for pat, rows in inter.items():
+      got_rows = [[c, n if n is not None else w[1]] for (c, n, _), w in zip(rows, want_rows + [[None, None]] * len(rows))]
+      if len(rows) != len(want_rows) or got_rows != want_rows or any(n is None and pat != 'zip_ids_clients' for _, n, _ in rows) \
+          or any(e != 'same' for _, _, e in rows):
+        out.append(('sqlite-interleaved',
+                    f'{pat}: a lazy listing interleaved with other queries on the same object gave '
+                    f'{[[c, n, e if e == "same" else "different examples"] for c, n, e in rows]}; the fully consumed reading gives {want_rows}'))
+        break
   for (cid, feats), got, one in zip(clients, obs['clients'], obs['single']):
     exp = {'t': 'dict', 'items': [[k, _expect(v)] for k, v in feats]}
     for g in (got[1], one[2]):
